@@ -96,3 +96,80 @@ def reflect_short_any(n, L, J):
             return True
         n = pywt.dwt_coeff_len(n, L, 'reflect')
     return False
+
+
+# ---- generic pieces for linear entry points ------------------------------------------------
+
+def real_module(kind, cfg):
+    return make_module(symtorch.real(), kind, cfg)
+
+
+def make_module(pw, kind, cfg):
+    w = cfg['wave']
+    if isinstance(w, list):
+        w = tuple(np.array(f, dtype=float) for f in w)
+    if kind == 'fwd1':
+        return pw.DWT1DForward(J=cfg['J'], wave=w, mode=cfg['mode'])
+    if kind == 'inv1':
+        return pw.DWT1DInverse(wave=w, mode=cfg['mode'])
+    if kind == 'fwd2':
+        return pw.DWTForward(J=cfg['J'], wave=w, mode=cfg['mode'])
+    if kind == 'inv2':
+        return pw.DWTInverse(wave=w, mode=cfg['mode'])
+    raise KeyError(kind)
+
+
+def in_shape(cfg):
+    return (cfg['B'], cfg['C'], cfg['N']) if cfg['dim'] == 1 else (cfg['B'], cfg['C'], cfg['H'], cfg['W'])
+
+
+def validate_linear(sym_arrs, real_tensors, ids, n, B):
+    """max |symbolic coefficient - real torch operator entry| over all outputs"""
+    dev = 0.0
+    for a, r in zip(sym_arrs, real_tensors):
+        M, c0 = core.lin_table(a, ids)
+        Rm = unbatch(r, n, B)
+        if M.shape != Rm.shape:
+            return float('inf')
+        if M.size:
+            dev = max(dev, float(np.abs(M - Rm).max()), float(np.abs(c0).max()))
+    return dev
+
+
+def same_outcome(res, so, ro):
+    """common handling of symbolic vs real outcomes; returns True if the harness may go on"""
+    if so[0] == 'unsupported':
+        res.status = 'inconclusive'; res.notes.append('symbolic engine: ' + so[1])
+        return False
+    if so[0] != ro[0] or (so[0] == 'raise' and so[1] != ro[1]):
+        res.status = 'error'; res.trace = 'symbolic outcome %r differs from real torch outcome %r' % (so[:3], ro[:3])
+        return False
+    return True
+
+
+def canary_ok(res, d, atom, tau):
+    """the same kind of query with the residual perturbed by 1e-6*atom must be refuted by a model that really violates"""
+    dd = d + P.Poly.var(int(atom)) * Fraction(1, 10 ** 6) * max(1, int(float(tau) * 10 ** 9))
+    cst = smt.Stats(); cs = smt.Solver(stats=cst); cs.keep_sample = False
+    v, m = cs.decide(dd, tau)
+    if v != 'sat' or abs(dd.evalq({a: m.get(a, Fraction(0)) for a in dd.atoms()})) <= Fraction(tau) / 2:
+        res.status = 'error'; res.trace = 'canary query was not refuted (%s)' % v
+        return False
+    return True
+
+
+def pyramid_shapes(cfg):
+    """shapes (per slice) of the pyramid PyWavelets produces for the configured signal size: (yl_shape, [yh_shapes finest first])"""
+    if cfg['dim'] == 1:
+        c = pywt.wavedec(np.zeros(cfg['N']), cfg['wave'], mode=cfg['mode'], level=cfg['J'])
+        return c[0].shape, [b.shape for b in c[1:][::-1]]
+    c = pywt.wavedec2(np.zeros((cfg['H'], cfg['W'])), cfg['wave'], mode=cfg['mode'], level=cfg['J'])
+    return c[0].shape, [(3,) + b[0].shape for b in c[1:][::-1]]
+
+
+def pywt_rec(cfg, yl, yh):
+    """PyWavelets reconstruction of (yl, [yh finest first]) with leading batch axes allowed; None levels allowed"""
+    if cfg['dim'] == 1:
+        return pywt.waverec([yl] + [h for h in yh[::-1]], cfg['wave'], mode=cfg['mode'], axis=-1)
+    co = [yl] + [None if h is None else tuple(np.take(h, i, axis=-3) for i in range(3)) for h in yh[::-1]]
+    return pywt.waverec2(co, cfg['wave'], mode=cfg['mode'], axes=(-2, -1))
